@@ -578,7 +578,14 @@ func c10(c *core.Ctx) {
 		rec := &mon.Recorder{Src: mon.RealRand()}
 		var ct []byte
 		k.Eval(1)
-		in := append(make([]byte, 0, n), pt...) // exact capacity: Encrypt must not depend on spare room
+		// the caller's plaintext slice has 0..40 octets of spare room behind it (every value, cycling with the case index,
+		// so that each length class meets each amount of spare room): Encrypt must not depend on it
+		spare := (k.Index / 3 / 7) % 41
+		if k.Index%2 == 0 {
+			spare = 0
+		}
+		in := append(make([]byte, 0, n+spare), pt...)
+		w["spare_capacity_behind_plaintext"] = spare
 		pn := core.Try(func() { mon.WithRand(rec, func() { ct, err = ci.Encrypt(in) }) })
 		if pn != nil {
 			k.Violate("panic", "Encrypt: "+pn.Sig(), "panic", panicData(pn, w))
